@@ -170,7 +170,7 @@ def build_harness(name, main_src, flags, cc='gcc', link_repo=(), include_repo=No
     sources (basenames) compiled as separate objects with the same flags."""
     main_path = os.path.join(NATIVE, main_src)
     deps = [main_path] + [os.path.join(NATIVE, e) for e in extra_src]
-    key = sha(repo_src_hash(), file_hash(deps), cc, ' '.join(flags), ' '.join(link_repo))
+    key = sha(repo_src_hash(), file_hash(deps + [os.path.join(NATIVE, 'globals.h')]), cc, ' '.join(flags), ' '.join(link_repo))
 
     def builder(d):
         srcs = [os.path.join(REPO, 'src', b) for b in link_repo]
